@@ -11,7 +11,7 @@ CONSTANTS Keys = {"k0", "k1"}
           FailRetry = 1
           MaxT = 4
           MaxSeq = 1
-          MaxOps = 2
+          MaxOps = 1
           MaxRounds = 0
           TrackW0 = FALSE
           UseRun = TRUE
